@@ -22,6 +22,7 @@ import (
 	"sort"
 	"sync"
 	"sync/atomic"
+	"time"
 
 	"github.com/tonistiigi/fsutil/types"
 	"verif/harness/model"
@@ -41,6 +42,7 @@ type pipe struct {
 
 // Conn is one bidirectional stream.
 type Conn struct {
+	last    int64
 	mu      sync.Mutex
 	seq     int
 	events  []vt.Ev
@@ -82,6 +84,7 @@ type Endpoint struct {
 
 func New(ctx context.Context, capS2R, capR2S int) *Conn {
 	c := &Conn{brk: make(chan struct{}), offs: map[uint32]int64{}}
+	c.touch()
 	s2r := &pipe{ch: make(chan []byte, capS2R), eof: make(chan struct{}), broken: make(chan struct{})}
 	r2s := &pipe{ch: make(chan []byte, capR2S), eof: make(chan struct{}), broken: make(chan struct{})}
 	sctx, sc := context.WithCancel(ctx)
@@ -91,7 +94,15 @@ func New(ctx context.Context, capS2R, capR2S int) *Conn {
 	return c
 }
 
+// LastActivity is the time of the last stream operation or logged event.
+func (c *Conn) LastActivity() time.Time {
+	return time.Unix(0, atomic.LoadInt64(&c.last))
+}
+
+func (c *Conn) touch() { atomic.StoreInt64(&c.last, time.Now().UnixNano()) }
+
 func (c *Conn) nextSeq() int {
+	c.touch()
 	c.mu.Lock()
 	c.seq++
 	n := c.seq
@@ -101,6 +112,7 @@ func (c *Conn) nextSeq() int {
 
 // Log records a harness-level event with the next sequence number.
 func (c *Conn) Log(e vt.Ev) {
+	c.touch()
 	c.mu.Lock()
 	c.seq++
 	e["seq"] = c.seq
@@ -211,6 +223,10 @@ func (e *Endpoint) SendMsg(m interface{}) error {
 		if ev != nil {
 			e.c.logAt(seq, ev)
 		}
+		if e.Gate != nil {
+			// the packet is already visible to the peer; SendMsg may return later
+			e.Gate("sent:"+pktType(p.Type), k)
+		}
 		return nil
 	case <-e.c.brk:
 		return ErrBroken
@@ -261,6 +277,7 @@ func (e *Endpoint) RecvMsg(m interface{}) error {
 			}
 		}
 	}
+	e.c.touch()
 	p.ResetVT()
 	if err := p.UnmarshalVT(raw); err != nil {
 		return err
